@@ -3,9 +3,9 @@ Model of `sqlite_dissect/entrypoint.py` (`main`, `print_text`, `print_csv`, `pri
 `carve_rollback_journal`) at the level the properties C04 / C12 speak about:
 
   * `validate`   — the ordered checks of `main` together with the file-system effects performed *before*
-                   each check (logging set-up creating the log file, `create_directory`), the journal
-                   selection (`--no-journal` / `--wal` / `--rollback-journal` / discovery by suffix) and the
-                   zero-length handling;
+                   each check (logging set-up creating the log file; `create_directory` runs only after the
+                   last check), the journal selection (`--no-journal` / `--wal` / `--rollback-journal` /
+                   discovery by suffix) and the zero-length handling;
   * `plan`       — which schema entries are handed to which exporter, with which signature, and the name of
                    every file that is written.
 
@@ -68,6 +68,7 @@ inductive Refusal where
   | carveFreelistsWithoutCarve
   | exportNeedsDirectory
   | prefixNeedsDirectory
+  | prefixHasSeparator
   | cannotCreateDirectory
   | cannotCreateSubDirectory
   | sqliteFileMissing
@@ -170,53 +171,67 @@ def setupDirectory (o : Opts) (i : Input) (w : World) (pfx : Str) : Except Refus
       else .error .cannotCreateSubDirectory
     else .ok (o.directory, e1)
 
-/-- the three checks that look at the options only -/
+/-- the four checks that look at the options only (the last one: `sep in arguments.file_prefix`;
+`os.path.altsep` is `None` on POSIX) -/
 def optionChecks (o : Opts) : Option Refusal :=
   if o.carveFreelists ∧ ¬ o.carve then some .carveFreelistsWithoutCarve
   else if needsDirectory o.exports ∧ o.directory = [] then some .exportNeedsDirectory
   else if o.filePrefix ≠ [] ∧ o.directory = [] then some .prefixNeedsDirectory
+  else if o.filePrefix ≠ [] ∧ '/' ∈ o.filePrefix then some .prefixHasSeparator
   else none
 
-/-- everything after the directory set-up: existence of the input, journal selection, `--exempted-tables`,
-the zero-length cases, both journals present -/
-def afterDirectory (o : Opts) (i : Input) (w : World) (outDir pfx : Str) (eff : List Effect) : Outcome :=
-  if ¬ w.pathExists i.sqlitePath then .refuse .sqliteFileMissing eff
+/-- what the checks on the input and its journals settle on -/
+inductive Checked where
+  | refuse (r : Refusal)
+  | exit0 (e : Exit0)
+  /-- `wal_file_name`, `rollback_journal_file_name` and whether each is opened (named and not zero-length) -/
+  | ok (walName rjName : Str) (walOpened rjOpened : Bool)
+  deriving DecidableEq, Repr, Inhabited
+
+/-- existence of the input, journal selection, `--exempted-tables`, the zero-length cases, both journals
+present — all of it *before* the output directory is touched -/
+def inputChecks (o : Opts) (i : Input) (w : World) : Checked :=
+  if ¬ w.pathExists i.sqlitePath then .refuse .sqliteFileMissing
   else
     let zeroDb := w.size i.sqlitePath = 0
     match journalNames o i.sqlitePath w with
-    | .error r => .refuse r eff
+    | .error r => .refuse r
     | .ok (walName, rjName) =>
-      if o.exemptedTables ≠ [] ∧ rjName = [] then .refuse .exemptedNeedsJournal eff
+      if o.exemptedTables ≠ [] ∧ rjName = [] then .refuse .exemptedNeedsJournal
       else
         let zeroWal := walName ≠ [] ∧ w.size walName = 0
         let zeroRj := rjName ≠ [] ∧ w.size rjName = 0
         if zeroDb then
-          if walName ≠ [] ∧ ¬ zeroWal then .refuse .zeroDbWithWal eff
-          else if zeroWal then .exit0 .emptyDbEmptyWal eff
-          else if rjName ≠ [] ∧ ¬ zeroRj then .refuse .zeroDbWithJournal eff
-          else if zeroRj then .exit0 .emptyDbEmptyJournal eff
-          else .exit0 .emptyDb eff
-        else if rjName ≠ [] ∧ walName ≠ [] then .refuse .bothJournals eff
-        else
-          .ready { outDir := outDir, filePrefix := pfx, exportTypes := exportTypes o.exports,
-                   walName := walName, rjName := rjName,
-                   walOpened := decide (walName ≠ [] ∧ ¬ zeroWal),
-                   rjOpened := decide (rjName ≠ [] ∧ ¬ zeroRj),
-                   exempted := decide (o.exemptedTables ≠ []) } eff
+          if walName ≠ [] ∧ ¬ zeroWal then .refuse .zeroDbWithWal
+          else if zeroWal then .exit0 .emptyDbEmptyWal
+          else if rjName ≠ [] ∧ ¬ zeroRj then .refuse .zeroDbWithJournal
+          else if zeroRj then .exit0 .emptyDbEmptyJournal
+          else .exit0 .emptyDb
+        else if rjName ≠ [] ∧ walName ≠ [] then .refuse .bothJournals
+        else .ok walName rjName (decide (walName ≠ [] ∧ ¬ zeroWal)) (decide (rjName ≠ [] ∧ ¬ zeroRj))
 
 /-- the effect of the logging set-up: `basicConfig(filename=…)` runs before every check -/
 def logEffects (o : Opts) : List Effect := if o.logFile ≠ [] then [.logFile o.logFile] else []
 
+/-- `main` up to the point where the library is called: option checks, input and journal checks, and only
+then the directory set-up -/
 def validate (o : Opts) (i : Input) (w : World) : Outcome :=
   match optionChecks o with
   | some r => .refuse r (logEffects o)
   | none =>
-    match setupDirectory o i w (filePrefixOf o i) with
-    | .error r =>
-        -- a failed `makedirs` of the sub-directory happens after the top directory was made
-        .refuse r (logEffects o ++ (if r = .cannotCreateSubDirectory ∧ ¬ w.pathExists o.directory
-                                    then [.mkdir o.directory] else []))
-    | .ok (outDir, effD) => afterDirectory o i w outDir (filePrefixOf o i) (logEffects o ++ effD)
+    match inputChecks o i w with
+    | .refuse r => .refuse r (logEffects o)
+    | .exit0 e => .exit0 e (logEffects o)
+    | .ok walName rjName walOpened rjOpened =>
+      match setupDirectory o i w (filePrefixOf o i) with
+      | .error r =>
+          -- a failed `makedirs` of the sub-directory happens after the top directory was made
+          .refuse r (logEffects o ++ (if r = .cannotCreateSubDirectory ∧ ¬ w.pathExists o.directory
+                                      then [.mkdir o.directory] else []))
+      | .ok (outDir, effD) =>
+          .ready { outDir := outDir, filePrefix := filePrefixOf o i, exportTypes := exportTypes o.exports,
+                   walName := walName, rjName := rjName, walOpened := walOpened, rjOpened := rjOpened,
+                   exempted := decide (o.exemptedTables ≠ []) } (logEffects o ++ effD)
 
 /-! ### the export plan -/
 
@@ -258,8 +273,10 @@ structure Item where
   writes : Bool
   deriving DecidableEq, Repr, Inhabited
 
-def csvLeaf (pfx name : Str) : Str :=
-  pfx ++ ['-'] ++ replaceChar '"' '_' (replaceChar ' ' '_' name) ++ ".csv".toList
+/-- `commit.name` with ' ', '"' and `os.sep` replaced by '_' -/
+def csvName (name : Str) : Str := replaceChar '/' '_' (replaceChar '"' '_' (replaceChar ' ' '_' name))
+
+def csvLeaf (pfx name : Str) : Str := pfx ++ ['-'] ++ csvName name ++ ".csv".toList
 
 def fileFor (f : Fmt) (r : Ready) (name : Str) : Str :=
   match f with
